@@ -163,6 +163,9 @@ Proof.
   apply IH. apply init_inf_esteq. exact H0.
 Qed.
 
+Lemma sample_pop_perm : forall g r0 r0', Permutation r0 r0' -> sample_pop g (Some r0) = sample_pop g (Some r0').
+Proof. intros g r0 r0' Hp. unfold sample_pop. apply filter_ext. intro u. rewrite (mem_perm r0 r0' u Hp). reflexivity. Qed.
+
 (* `for node in initial_recovereds:`: any order of the caller's container (duplicates as
    given) gives the same calls to the random source and the same result, on every script *)
 Theorem esir_r0_order_indep : forall tb g prov i0 r0 r0' rho tmin tmax full fuel ds,
@@ -174,7 +177,7 @@ Proof.
   assert (HF : forall e, simrelx eq (Fail e) (Fail e : samp esir_out)) by (intro e; eapply sx_leaf; reflexivity).
   destruct rho as [r|]; destruct i0 as [l|]; try apply HF.
   - apply gloop_esteq. apply init_state_perm. exact Hp.
-  - cbn [Z.ltb Z.compare]. constructor. intro ks. apply gloop_esteq. apply init_state_perm. exact Hp.
+  - cbn [Z.ltb Z.compare]. rewrite (sample_pop_perm g r0 r0' Hp). constructor. intro ks. apply gloop_esteq. apply init_state_perm. exact Hp.
 Qed.
 
 Theorem fast_sir_const_r0_order_indep : forall g tau gamma i0 r0 r0' rho tmin tmax full fuel ds,
@@ -186,5 +189,5 @@ Proof.
   assert (HF : forall e, bsimrelx eq (BFail e) (BFail e : bsamp esir_out)) by (intro e; eapply bx_leaf; reflexivity).
   destruct rho as [r|]; destruct i0 as [l|]; try apply HF.
   - apply bgloop_esteq. apply init_state_perm. exact Hp.
-  - cbn [Z.ltb Z.compare]. constructor. intro ks. apply bgloop_esteq. apply init_state_perm. exact Hp.
+  - cbn [Z.ltb Z.compare]. rewrite (sample_pop_perm g r0 r0' Hp). constructor. intro ks. apply bgloop_esteq. apply init_state_perm. exact Hp.
 Qed.
